@@ -125,7 +125,8 @@ def solve_sat(
         n_vars = max(n_vars, lit_var(lit))
 
     if n_vars == 0:
-        return Result({}, 0, 0, 0)
+        # Clauses exist but mention no variable: they are all empty, i.e. unsatisfiable
+        return Result({}, 0, 0, 0, Status.INFEASIBLE)
 
     vals = [UNDEF] * (n_vars + 1)
     levels = [0] * (n_vars + 1)
